@@ -206,3 +206,157 @@ def handler_ctx(prog, dctx, arm):
     idx = len(dctx.body.blocks[bb]["stmts"])
     params = {i + 1: dctx.T.operand(a, bb, idx) for i, a in enumerate(t["args"])}
     return Ctx(hb, params=params)
+
+
+# ------------------------------------------------------------------ struct deltas (P7)
+
+
+def struct_deltas(t):
+    """a value term that is a chain of field updates over a base (`upd`) or a fresh aggregate,
+    possibly under phi -> list of (base_term, {field_path_tuple: value_term})."""
+    if t[0] == "phi":
+        out = []
+        for a in t[1]:
+            out += struct_deltas(a)
+        return out
+    d = {}
+    chain = []
+    while t[0] == "upd":
+        chain.append((tuple(t[2]), t[3]))
+        t = t[1]
+    if t[0] == "phi":
+        # updates applied after a merge: distribute
+        out = []
+        for base, dd in struct_deltas(t):
+            dd = dict(dd)
+            for path, val in reversed(chain):
+                dd[path] = val
+            out.append((base, dd))
+        return out
+    for path, val in reversed(chain):
+        d[path] = val
+    return [(t, d)]
+
+
+def delta_op(val, field_base=None):
+    """classify a field's new value: (':=', term) | ('+=', term) | ('-=', term)."""
+    if val[0] == "mut":
+        nm = val[2]
+        if nm.endswith("AddAssign::add_assign"):
+            return "+=", val[3][0]
+        if nm.endswith("SubAssign::sub_assign"):
+            return "-=", val[3][0]
+        return "mut:" + nm.split("::")[-1], val[3]
+    return ":=", val
+
+
+def response_calls(t, names=("add_message", "add_messages", "add_submessage", "add_submessages")):
+    """message-adding builder calls inside a Response term: list of (method, arg term)."""
+    out = []
+    for s in subterms(t):
+        if s[0] == "call" and s[1].startswith("cosmwasm_std::Response::") and s[1].split("::")[-1] in names:
+            out.append((s[1].split("::")[-1], s[2][1]))
+    return out
+
+
+def success_terms(ctx):
+    return [(e["bb"], e["term"]) for e in exits(ctx) if e["kind"] in ("ok", "other", "delegate")]
+
+
+# ------------------------------------------------------------------ constants (P11) and comparisons (P9)
+
+_BIN = {
+    "Add": lambda a, b: a + b,
+    "Sub": lambda a, b: a - b,
+    "Mul": lambda a, b: a * b,
+    "AddWithOverflow": lambda a, b: a + b,
+    "SubWithOverflow": lambda a, b: a - b,
+    "MulWithOverflow": lambda a, b: a * b,
+    "AddUnchecked": lambda a, b: a + b,
+    "MulUnchecked": lambda a, b: a * b,
+}
+
+
+def fold(t):
+    """constant-fold integer arithmetic over literals; strips the `.0` of checked ops. returns term."""
+    if not isinstance(t, tuple) or not t:
+        return t
+    if t[0] == "field" and t[2] == "0" and t[1][0] == "bin" and t[1][1].endswith("WithOverflow"):
+        return fold(t[1])
+    if t[0] == "bin":
+        a, b = fold(t[2]), fold(t[3])
+        if a[0] == "const" and b[0] == "const" and a[1] == "int" and b[1] == "int" and t[1] in _BIN:
+            return ("const", "int", _BIN[t[1]](a[2], b[2]), a[3] if len(a) > 3 else None)
+        return ("bin", t[1].replace("WithOverflow", ""), a, b)
+    if t[0] == "call":
+        return ("call", t[1], tuple(fold(a) for a in t[2])) + tuple(t[3:])
+    if t[0] == "agg":
+        return ("agg", t[1], t[2], tuple(("fld", n, fold(v)) for _, n, v in t[3]))
+    if t[0] == "payload":
+        return ("payload", fold(t[1]), t[2])
+    if t[0] == "field":
+        return ("field", fold(t[1]), t[2])
+    if t[0] == "phi":
+        return ("phi", tuple(fold(a) for a in t[1]))
+    if t[0] == "upd":
+        return ("upd", fold(t[1]), t[2], fold(t[3]))
+    if t[0] == "mut":
+        return ("mut", fold(t[1]), t[2], tuple(fold(a) for a in t[3]))
+    if t[0] in ("tuple", "array"):
+        return (t[0], tuple(fold(a) for a in t[1]))
+    return t
+
+
+def const_int(t):
+    t = fold(t)
+    if t[0] == "const" and t[1] == "int":
+        return t[2]
+    if t[0] == "call" and t[1] in ("cosmwasm_std::Uint128::zero",):
+        return 0
+    return None
+
+
+_REL = {
+    "Lt": {"<"}, "Le": {"<", "="}, "Gt": {">"}, "Ge": {">", "="}, "Eq": {"="}, "Ne": {"<", ">"},
+    "std::cmp::PartialOrd::lt": {"<"}, "std::cmp::PartialOrd::le": {"<", "="},
+    "std::cmp::PartialOrd::gt": {">"}, "std::cmp::PartialOrd::ge": {">", "="},
+    "std::cmp::PartialEq::eq": {"="}, "std::cmp::PartialEq::ne": {"<", ">"},
+}
+_FLIP = {"<": ">", ">": "<", "=": "="}
+
+
+def cmp_rel(t, is_x, is_y):
+    """if t compares x with y (either order, any operator spelling): the set of orderings of
+    (x ? y) in which t is TRUE, e.g. `y <= x` -> {'>', '='}.  None if t is not such a comparison."""
+    if t[0] == "bin" and t[1] in _REL:
+        a, b, rel = t[2], t[3], _REL[t[1]]
+    elif t[0] == "call" and t[1] in _REL and len(t[2]) == 2:
+        a, b, rel = t[2][0], t[2][1], _REL[t[1]]
+    else:
+        return None
+    if is_x(a) and is_y(b):
+        return set(rel)
+    if is_x(b) and is_y(a):
+        return set(_FLIP[r] for r in rel)
+    return None
+
+
+def deadline_guard(name, is_x, is_y, reject_when):
+    """Guard for `reject iff (x ? y) in reject_when` (P9): matches a comparison of x and y whose
+    truth table is exactly that (or its complement); passing = the non-rejecting truth value."""
+    seen = []
+
+    def boolean(t):
+        rel = cmp_rel(t, is_x, is_y)
+        if rel is None:
+            return None
+        seen.append(sorted(rel))
+        if rel == set(reject_when):
+            return False  # term true => reject; pass on false
+        if rel == {"<", "=", ">"} - set(reject_when):
+            return True
+        return None  # a comparison of the right operands with the wrong table: not this guard
+
+    g = Guard(name, boolean=boolean)
+    g.seen = seen
+    return g
